@@ -18,26 +18,33 @@ THEOREMS = [
     ("C09_mp4_no_panic", _PRE + " forall n, mp4_sanitize cfg lenient U64MAX' inp fuel <> Panic n"),
     ("C09_mp4_terminates", _PRE + " (N.to_nat (ilen inp / 8) < fuel)%nat -> mp4_sanitize cfg lenient U64MAX' inp fuel <> OutOfFuel"),
     ("C09_webp_container_no_panic", """forall (lossless : N -> N -> bytes -> res unit) (allow lenient : bool) (ms : N) (inp : input) (fuel : nat),
-  (forall w h b, rgood (lossless w h b)) -> forall n, webp_sanitize lossless allow lenient ms inp fuel <> Panic n"""),
+  (forall w h b, ldims w h -> rgood (lossless w h b)) -> forall n, webp_sanitize lossless allow lenient ms inp fuel <> Panic n"""),
     ("C09_webp_container_terminates", """forall (lossless : N -> N -> bytes -> res unit) (allow lenient : bool) (ms : N) (inp : input) (fuel : nat),
-  (forall w h b, rgood (lossless w h b)) -> (N.to_nat (ilen inp / 8) < fuel)%nat ->
+  (forall w h b, ldims w h -> rgood (lossless w h b)) -> (N.to_nat (ilen inp / 8) < fuel)%nat ->
   webp_sanitize lossless allow lenient ms inp fuel <> OutOfFuel"""),
     ("C09_webp_lossless_total", """forall (w h : N) (body : bytes), dims w h ->
   lossless_read w h body = Ok tt \\/ exists e, lossless_read w h body = EParse e"""),
+    ("C09_webp_lossless_total_wide", """forall (w h : N) (body : bytes), 0 < w <= 2 ^ 24 /\\ 0 < h <= 2 ^ 24 ->
+  lossless_read w h body = Ok tt \\/ exists e, lossless_read w h body = EParse e"""),
+    ("C09_webp_no_panic", """forall (allow lenient : bool) (ms : N) (inp : input) (fuel : nat) (n : N),
+  webp_sanitize lossless_read allow lenient ms inp fuel <> Panic n"""),
+    ("C09_webp_terminates", """forall (allow lenient : bool) (ms : N) (inp : input) (fuel : nat),
+  (N.to_nat (ilen inp / 8) < fuel)%nat -> webp_sanitize lossless_read allow lenient ms inp fuel <> OutOfFuel"""),
 ]
 _WREQ = ["From Coq Require Import List NArith Bool.", "From Coq.Strings Require Import Byte.",
          "From MS Require Import Base.Bytes Base.Outcome Base.Prog Webp.Container Webp.Vp8l Webp.ContainerProofsTotal Webp.Vp8lProofsTop Props.C09w.",
          "Open Scope N_scope."]
-REQUIRES_FOR = {n: _WREQ for n in ("C09_webp_container_no_panic", "C09_webp_container_terminates", "C09_webp_lossless_total")}
+REQUIRES_FOR = {n: _WREQ for n in ("C09_webp_container_no_panic", "C09_webp_container_terminates", "C09_webp_lossless_total", "C09_webp_lossless_total_wide", "C09_webp_no_panic", "C09_webp_terminates")}
 XCHECK_N = 0
 EXHAUSTIVE = {"quick": False, "thorough": False}
 NOTES = ["partial by nature: the theorems are about the modelled logic (every unwrap/unreachable!/assert!/overflow/slice-bound site of the code is a "
          "`Panic n` outcome of the model and is proved unreachable; every loop has a proved fuel bound). Allocator failure, stack depth inside "
          "bitstream-io's compile_read_tree / Report formatting and third-party internals cannot be exhibited by a Gallina model: they are only sampled "
          "by the harness (catch_unwind, overflow-checks and debug-assertions on).",
-         "webp: C09_webp_container_no_panic / _terminates are about the container programme with the lossless validator as a parameter that never panics or "
-         "runs out of fuel; C09_webp_lossless_total discharges that for Webp/Vp8l.v on dimensions with fewer than 2^32 pixels (canvas, VP8L header). An ANMF frame "
-         "header can declare up to 2^24 x 2^24 pixels for a lossless ALPH chunk: outside the proved domain, sampled by the harness (frames of 2^24 x 2^24)"]
+         "webp: C09_webp_no_panic / C09_webp_terminates are about the WHOLE model (container programme with the lossless validator Webp/Vp8l.v plugged in), no "
+         "hypothesis left: the container theorems are parametric in a validator that is total on the dimensions a container can pass (0 < w, h <= 2^24), and "
+         "C09_webp_lossless_total_wide proves that of Vp8l.v for every pixel count (an ANMF frame header can declare 2^24 x 2^24 pixels; frames of that size are "
+         "also sampled by the harness)"]
 
 
 def area_of(line):
@@ -142,8 +149,8 @@ RULE = ("mp4: the C05 standard stream (layouts, pathologies, truncation at every
         "in VP8L / ALPH / ANMF positions. Non-trivial = case line longer than 120 characters; distinct = distinct line.")
 LEVEL_TEXT = ("WebP: C09_webp_container_no_panic / C09_webp_container_terminates (every input, both configs, strict and seek-style readers, every fuel resp. fuel > ilen/8: "
               "no Panic site of the container model - ChunkReader protocol assertions, stream_position - 8, parent of the root, slice accesses of the chunk parsers - is "
-              "reachable and every loop terminates) and C09_webp_lossless_total (the lossless validator returns Ok or a parse error for every byte string and all "
-              "dimensions below 2^32 pixels). MP4: theorems C09_mp4_no_panic / C09_mp4_terminates (Coq, all inputs, both reader kinds, all configs with limit < 4 GiB, explicit fuel bound ilen/8+1): no Panic site "
+              "reachable and every loop terminates), C09_webp_lossless_total_wide (the lossless validator returns Ok or a parse error for every byte string and all "
+              "dimensions 0 < w, h <= 2^24) and their composition C09_webp_no_panic / C09_webp_terminates for the whole modelled webpsan. MP4: theorems C09_mp4_no_panic / C09_mp4_terminates (Coq, all inputs, both reader kinds, all configs with limit < 4 GiB, explicit fuel bound ilen/8+1): no Panic site "
               "of the mp4 model is reachable and the loop terminates; plus model/implementation correspondence of outcome classes and a panic/timeout/abort observer on "
               "structure-aware, mutated and exhaustively truncated inputs for both sanitizers. A universally quantified absence-of-failure claim over the sanitizer's own logic "
               "is what a proof decides; runtime aborts outside the logic are sampled.")
